@@ -4,6 +4,7 @@ import (
 	"encoding/hex"
 	"encoding/json"
 	"fmt"
+	"math"
 	"math/big"
 	"testing"
 
@@ -91,6 +92,8 @@ func TestC12InitiatorBounds(t *testing.T) {
 			feeMsat := rapid.OneOf(
 				rapid.SampledFrom([]uint64{3 * est * 1000, 3*est*1000 + 999, 3*est*1000 + 1000, (3*est + 1) * 1000, est * 1000, 0, 1, 1_000_000, 2_000_000}),
 				rapid.Uint64Range(0, 4_000_000),
+				// beyond anything a sane invoice carries, where signed / wrapping arithmetic misbehaves
+				rapid.SampledFrom([]uint64{1 << 63, 1<<63 + 999, 1<<63 - 1, math.MaxUint64 - 999, math.MaxUint64, math.MaxUint64 - amount*1000 + 1, math.MaxUint64 - amount*1000 + 1001}),
 			).Draw(t, "feeMsat")
 			feeInv := &sim.Invoice{Payee: m.Id, Hash: sha256hex([]byte("feepre" + id)), AmountMsat: feeMsat, CLTV: 18, Expiry: 600, Label: "fee", Preimage: hex.EncodeToString([]byte("feepre" + id + "0123456789abcdef0123456789")[:32]), CreatedBy: "mallory"}
 			feeInv.Hash = sha256hex(mustHex(feeInv.Preimage))
@@ -230,8 +233,6 @@ func TestC12ResponderPremium(t *testing.T) {
 		out := rapid.Bool().Draw(t, "swapOut")
 		liquid := rapid.Bool().Draw(t, "liquid")
 		amount := rapid.OneOf(rapid.Uint64Range(100_000, 10_000_000), rapid.SampledFrom([]uint64{100_000, 1_000_000, 21_000_000_0000_0000 / 1000, 9_223_372_036_854, 9_223_372_036_855, 1_000_000_000_000})).Draw(t, "amount")
-		rate := rapid.OneOf(rapid.Int64Range(-1_000_000, 1_000_000), rapid.SampledFrom([]int64{0, 1, -1, 1_000_000, -1_000_000, 2000})).Draw(t, "rate")
-		src := rapid.SampledFrom([]string{"peer", "default", "builtin"}).Draw(t, "rateSource")
 		as, op := premium.BTC, premium.SwapIn
 		if liquid {
 			as = premium.LBTC
@@ -239,33 +240,68 @@ func TestC12ResponderPremium(t *testing.T) {
 		if out {
 			op = premium.SwapOut
 		}
-		switch src {
-		case "peer":
-			pr, _ := premium.NewPremiumRate(as, op, premium.NewPPM(rate))
-			_ = a.Premium.SetRate(nil, m.Id, pr)
-		case "default":
-			pr, _ := premium.NewPremiumRate(as, op, premium.NewPPM(rate))
-			_ = a.Premium.SetDefaultRate(nil, pr)
-		default:
-			rate = builtinRate(liquid, out)
-		}
-		wantPrem := new(big.Int).Mul(bigU(amount), big.NewInt(rate))
-		wantPrem.Quo(wantPrem, big.NewInt(1_000_000))
-		id := freshId(t)
 		keyHex := hex.EncodeToString(sim.KeyFromName("req-swapkey").PubKey().SerializeCompressed())
 		asset, network := "", "regtest"
 		if liquid {
 			asset, network = sim.LbtcAsset, ""
 		}
-		var payload []byte
+		request := func(id string, amt uint64) []byte {
+			if out {
+				b, _ := json.Marshal(&swap.SwapOutRequestMessage{ProtocolVersion: 7, SwapId: mustSwapId(id), Asset: asset, Network: network, Scid: "300x3x0", Amount: amt, Pubkey: keyHex, PremiumLimit: 1<<63 - 1})
+				return b
+			}
+			b, _ := json.Marshal(&swap.SwapInRequestMessage{ProtocolVersion: 7, SwapId: mustSwapId(id), Asset: asset, Network: network, Scid: "300x3x0", Amount: amt, Pubkey: keyHex, PremiumLimit: 1<<63 - 1})
+			return b
+		}
 		typ := mtSwapInRequest
 		if out {
 			typ = mtSwapOutRequest
-			payload, _ = json.Marshal(&swap.SwapOutRequestMessage{ProtocolVersion: 7, SwapId: mustSwapId(id), Asset: asset, Network: network, Scid: "300x3x0", Amount: amount, Pubkey: keyHex, PremiumLimit: 1<<63 - 1})
-		} else {
-			payload, _ = json.Marshal(&swap.SwapInRequestMessage{ProtocolVersion: 7, SwapId: mustSwapId(id), Asset: asset, Network: network, Scid: "300x3x0", Amount: amount, Pubkey: keyHex, PremiumLimit: 1<<63 - 1})
 		}
-		a.Deliver(m.Id, typ, payload)
+		// the rate configuration is a history: rates are set, changed and deleted at run time, and the
+		// peer may have been quoted before under an earlier configuration
+		var peerRate, defRate *int64
+		var cfgOps []string
+		configure := func(label string) {
+			for i, n := 0, rapid.IntRange(0, 2).Draw(t, label+"Ops"); i < n; i++ {
+				r := rapid.OneOf(rapid.Int64Range(-1_000_000, 1_000_000), rapid.SampledFrom([]int64{0, 1, -1, 1_000_000, -1_000_000, 2000})).Draw(t, label+"Rate")
+				switch rapid.SampledFrom([]string{"peer", "default", "default", "delete-peer"}).Draw(t, label+"Op") {
+				case "peer":
+					pr, _ := premium.NewPremiumRate(as, op, premium.NewPPM(r))
+					_ = a.Premium.SetRate(nil, m.Id, pr)
+					peerRate = &r
+					cfgOps = append(cfgOps, fmt.Sprintf("peer=%d", r))
+				case "default":
+					pr, _ := premium.NewPremiumRate(as, op, premium.NewPPM(r))
+					_ = a.Premium.SetDefaultRate(nil, pr)
+					defRate = &r
+					cfgOps = append(cfgOps, fmt.Sprintf("default=%d", r))
+				case "delete-peer":
+					_ = a.Premium.DeleteRate(nil, m.Id, as, op)
+					peerRate = nil
+					cfgOps = append(cfgOps, "delete-peer")
+				}
+			}
+		}
+		configure("cfg1")
+		if rapid.Bool().Draw(t, "quotedBefore") {
+			id0 := freshId(t)
+			a.Deliver(m.Id, typ, request(id0, 150_000))
+			a.Deliver(m.Id, mtCancel, buildMessage(t, mtCancel, id0, "", "btc", ""))
+			cfgOps = append(cfgOps, "earlier-request")
+			configure("cfg2")
+		}
+		rate, src := builtinRate(liquid, out), "builtin"
+		if defRate != nil {
+			rate, src = *defRate, "default"
+		}
+		if peerRate != nil {
+			rate, src = *peerRate, "peer"
+		}
+		src += fmt.Sprintf("%v", cfgOps)
+		wantPrem := new(big.Int).Mul(bigU(amount), big.NewInt(rate))
+		wantPrem.Quo(wantPrem, big.NewInt(1_000_000))
+		id := freshId(t)
+		a.Deliver(m.Id, typ, request(id, amount))
 		desc := fmt.Sprintf("out=%v liquid=%v amount=%d rate=%d(%s)", out, liquid, amount, rate, src)
 		var got *int64
 		if out {
